@@ -91,6 +91,21 @@ def classify(res, gen_lines):
                     r2 = dict(rec); r2["obl"] = o; failed.append(r2)
             else:
                 untagged.append(rec)
+        elif "decreases not satisfied" in low:
+            # a termination measure that no longer decreases: reported as a failed obligation only when the loop's `decreases` clause carries a
+            # tag (the overlay claims termination there); otherwise undecided as before
+            sites = [l for (l, _, _) in d.lines()]
+            tag = None
+            if sites:
+                ln = sites[0]
+                for k in list(range(ln, max(0, ln - 120), -1)) + list(range(ln + 1, min(len(gen_lines), ln + 40))):
+                    t = gen_lines[k - 1].strip() if 0 < k <= len(gen_lines) else ""
+                    if t.startswith("decreases"):
+                        mo = OBL_RE.search(t)
+                        if mo: tag = mo.group(1)
+                        break
+            if tag: failed.append({"msg": msg, "sites": sites, "rendered": d.rendered, "obl": tag})
+            else: undecided.append({"msg": msg, "rendered": d.rendered, "sites": sites})
         elif any(m in low for m in UNDECIDED_MSGS):
             undecided.append({"msg": msg, "rendered": d.rendered, "sites": [l for (l, _, _) in d.lines()]})
         else:
